@@ -7,8 +7,10 @@ From PV Require Import Base.PyData Base.Expr Base.Interp Base.Stmts C07.Model.
 Import ListNotations.
 Local Open Scope nat_scope.
 
-Inductive obs (A : Type) := OOk (a : A) | OValueError | OOther.
-Arguments OOk {A} a. Arguments OValueError {A}. Arguments OOther {A}.
+(* what the implementation did: result | ValueError | another exception | the expression engine refused
+   (symengine RuntimeError: a division by zero appears while substituting, e.g. an eta fixed to 0) *)
+Inductive obs (A : Type) := OOk (a : A) | OValueError | OOther | OEngine.
+Arguments OOk {A} a. Arguments OValueError {A}. Arguments OOther {A}. Arguments OEngine {A}.
 
 Record case := mkCase {
   c_known : list id;                 (* parameters, rvs, columns, t, compartment amounts *)
@@ -17,7 +19,9 @@ Record case := mkCase {
   c_dists : list dist;               (* names / parameter_names of every distribution *)
   c_prog : list stm;                 (* model.statements *)
   c_decl : obs (list stm);           (* make_declarative(model).statements *)
-  c_clean : obs (list stm);          (* cleanup_model(model).statements *)
+  c_clean : obs (list stm * list id * list id);
+                                     (* cleanup_model(model): statements, parameter names, variance
+                                        parameters of its rvs that are not parameters of it *)
   c_ren : list (list (id * id) * obs (list stm) * list id * list id);
                                      (* renaming, rename_symbols(...).statements, parameter names and
                                         rv names of the renamed model *)
@@ -25,6 +29,11 @@ Record case := mkCase {
   c_rvnames : list id;               (* rv names in order *)
   c_rdists : list rdist;             (* distributions for remove_unused_parameters_and_rvs *)
   c_unused : obs (list id * list id);(* parameter names, rv names after remove_unused_... *)
+  c_epss : list id;                  (* epsilon names *)
+  c_etas : list id;                  (* eta names *)
+  c_obs : obs expr;                  (* get_observation_expression *)
+  c_ipred : obs expr;                (* get_individual_prediction_expression *)
+  c_pred : obs expr;                 (* get_population_prediction_expression *)
   c_envs : list (list (id * Q))      (* fixed parameters at their initial estimate *)
 }.
 
@@ -68,10 +77,25 @@ Definition res_agree (envs : list env) (m : res (list stm)) (o : obs (list stm))
   match m, o with
   | ROk a, OOk b => stms_agree 2 envs a b
   | RValueError, OValueError => 0
+  | RInternal, OOther => 0
+  | _, OEngine => 2
   | _, _ => 1
   end.
 
-Definition run7 (r : env) (l : list stm) : env := sexec std_fi std_ode r l.
+Definition omap {A B} (f : A -> B) (o : obs A) : obs B :=
+  match o with OOk a => OOk (f a) | OValueError => OValueError | OOther => OOther | OEngine => OEngine end.
+
+(* the concrete solver oracle of the checks: position-sensitive in the expressions of the system
+   (Base's std_ode is a symmetric sum: swapped rates would go unnoticed) *)
+Fixpoint horner (l : list (option Q)) (acc : Q) : option Q :=
+  match l with
+  | [] => Some acc
+  | None :: _ => None
+  | Some x :: tl => horner tl (Qred (acc * 3 + x))
+  end.
+Definition pos_ode (a : id) (vals : list (option Q)) : option Q := horner vals (inject_Z (Zpos a)).
+
+Definition run7 (r : env) (l : list stm) : env := sexec std_fi pos_ode r l.
 
 (* value of x changed: defined before and after, and different *)
 Definition changed (a b : option Q) : bool :=
@@ -92,17 +116,30 @@ Definition check_decl (c : case) : list nat :=
   match c_decl c with
   | OOk p' => tag (preserved (envs_of c) (normp (all_sdefs p)) p p') 11
               ++ tag (nodup_p (flat_map (fun st => match st with SAssign s _ => [s] | _ => [] end) p')) 18
+  | OEngine => []
   | _ => if canon_ok (c_known c) p then [14] else []
   end.
 
+(* the declarative statements the later stages of cleanup_model start from: the implementation's own *)
+Definition decl_of (c : case) : list stm :=
+  match c_decl c with OOk d => d | _ => declarative (c_prog c) end.
+
 Definition check_clean (c : case) : list nat :=
   let p := c_prog c in
-  tag3 (res_agree (envs_of c) (cleanup_m (c_known c) (c_fixed c) (c_dists c) p) (c_clean c)) 2 1002 ++
+  let m := match c_decl c with
+           | OOk d => cleanup_from_decl (c_known c) (c_fixed c) (c_dists c) d
+           | OEngine => RInternal
+           | _ => RValueError end in
+  tag3 (res_agree (envs_of c) m (omap (fun x => fst (fst x)) (c_clean c))) 2 1002 ++
   match c_clean c with
-  | OOk p' =>
-      (* every symbol the cleaned model still defines keeps its value *)
-      tag (preserved (envs_of c) (normp (all_sdefs p')) p p') 12
+  | OOk (p', ps, dang) =>
+      tag (list_eqb Pos.eqb (cleanup_params (c_fixed c) (c_dists c) (c_params c)) ps) 10 ++
+      (* every symbol the cleaned model still defines (except the inlined aliases) keeps its value *)
+      tag (preserved (envs_of c) (diffp (normp (all_sdefs p')) (inlined (decl_of c))) p p') 12
       ++ tag (forallb (fun y => negb (memp y (all_sdefs p)) || memp y (all_sdefs p')) (c_outputs c)) 13
+      (* every variance parameter of the cleaned model's distributions is one of its parameters *)
+      ++ tag (match dang with [] => true | _ => false end) 24
+  | OEngine => []
   | _ => if canon_ok (c_known c) p then [15] else []
   end.
 
@@ -124,6 +161,7 @@ Definition check_ren (c : case) : list nat :=
                                                                    (run7 (ren_env d m) p' (ren d x))))
                                           (normp (all_sdefs p))) (c_envs c)) 16
          else [203])
+    | OEngine => []
     | _ => if g_rename_ok d (c_known c) p then [17] else [203]
     end) (c_ren c).
 
@@ -139,13 +177,123 @@ Definition check_unused (c : case) : list nat :=
   | _ => [20]
   end.
 
+(* an extractor result against the model and against execution from environment [at r] *)
+Definition check_extractor (c : case) (m : option expr) (o : obs expr) (at_ : env -> env)
+           (tcorr tinc toracle : nat) : list nat :=
+  match m, o with
+  | Some a, OOk b =>
+      tag3 (expr_agree 2 (envs_of c) a b) tcorr tinc ++
+      flat_map (fun y =>
+        tag (forallb (fun r => negb (changed (eval r std_fi b) (run7 (at_ r) (c_prog c) y))) (envs_of c)) toracle)
+        (c_outputs c)
+  | _, OEngine => [tinc]
+  | None, OOk _ => [tcorr]
+  | Some a, _ =>
+      (* the implementation refused (e.g. symengine division by zero while substituting eta = 0):
+         only consistent when the model's expression is undefined at every sample point *)
+      if forallb (fun r => match eval r std_fi a with None => true | Some _ => false end) (envs_of c)
+      then [tinc] else [tcorr]
+  | None, _ => []
+  end.
+
+Definition check_obs (c : case) : list nat :=
+  let p := c_prog c in
+  flat_map (fun y =>
+    check_extractor c (obs_expr p y) (c_obs c) (fun r => r) 7 1007 21 ++
+    check_extractor c (ipred_expr p y (c_epss c)) (c_ipred c)
+                    (fun r => upd_map r std_fi (zeros (c_epss c))) 8 1008 22 ++
+    check_extractor c (pred_expr p y (c_epss c) (c_etas c)) (c_pred c)
+                    (fun r => upd_map r std_fi (zeros (c_epss c ++ c_etas c))) 9 1009 23)
+    (firstn 1 (c_outputs c)).
+
 Definition guard_tags (c : case) : list nat :=
   let p := c_prog c in
   tag (g_no_stale_capture p) 201 ++
-  tag (g_no_alias_chain (declarative p)) 202 ++
-  tag (g_inline_ok (declarative p)) 204 ++
-  tag (forallb (fun y => negb (memp y (inlined (declarative p)))) (c_outputs c)) 205 ++
-  tag (canon_ok (c_known c) p) 206.
+  tag (g_no_alias_chain (decl_of c)) 202 ++
+  tag (g_inline_ok (decl_of c)) 204 ++
+  tag (g_dv_not_alias (c_outputs c) (decl_of c)) 205 ++
+  tag (canon_ok (c_known c) p) 206 ++
+  tag (forallb (g_dv_single p) (c_outputs c)) 207 ++
+  tag (g_no_shadowing (c_known c) p) 208 ++
+  tag (g_fixed_are_thetas (c_fixed c) (c_dists c)) 209 ++
+  (* strict validity (domain of Properties.declarative_patched_correct); amounts are not "known" there *)
+  tag (g_valid (diffp (c_known c) (flat_map (fun st => match st with SOde a _ => a | _ => [] end) p)) p) 211.
+
+(* used only by the sensitivity self-test: the REPAIRED make_declarative against Model.declarative_patched *)
+Definition verdict_patched (c : case) : list nat :=
+  let p := c_prog c in
+  let d := declarative_patched p in
+  tag3 (res_agree (envs_of c) (if canon_ok (c_known c) d then ROk d else RValueError) (c_decl c)) 1 1001 ++
+  match c_decl c with
+  | OOk p' => tag (preserved (envs_of c) (normp (all_sdefs p)) p p') 11
+  | OEngine => []
+  | _ => if canon_ok (c_known c) p then [14] else []
+  end ++
+  tag (g_no_stale_capture_patched p) 201 ++ tag (g_no_shadowing (c_known c) p) 208 ++
+  tag (g_valid (diffp (c_known c) (flat_map (fun st => match st with SOde a _ => a | _ => [] end) p)) p) 211.
 
 Definition verdict (c : case) : list nat :=
-  check_decl c ++ check_clean c ++ check_ren c ++ check_unused c ++ guard_tags c.
+  check_decl c ++ check_clean c ++ check_ren c ++ check_unused c ++ check_obs c ++ guard_tags c.
+
+(* ---- oracle-only stream (validation): a corpus model before / after a refactoring -------------- *)
+Record pcase := mkP {
+  p_before : list stm;
+  p_after : list stm;
+  p_ren : list (id * id);            (* declared renaming (greekify), else [] *)
+  p_outs : list id;                  (* dependent variables *)
+  p_raised : bool;                   (* make_declarative / cleanup_model raised ValueError *)
+  p_envs : list (list (id * Q))
+}.
+
+Definition verdict_pair (c : pcase) : list nat :=
+  if p_raised c then
+    (* the refactoring refused a corpus model: which guard of the model explains it *)
+    [33] ++ tag (g_no_stale_capture (p_before c)) 201 ++ tag (g_no_alias_chain (declarative (p_before c))) 202
+  else
+  let d := p_ren c in
+  let outs := filter (fun x => memp (ren d x) (all_sdefs (p_after c))) (normp (all_sdefs (p_before c))) in
+  let cmp := flat_map (fun m => map (fun x => (run7 (env_of m) (p_before c) x,
+                                               run7 (ren_env d m) (p_after c) (ren d x))) outs) (p_envs c) in
+  tag (forallb (fun ab => negb (changed (fst ab) (snd ab))) cmp) 31 ++
+  tag (forallb (fun y => negb (memp y (all_sdefs (p_before c))) || memp (ren d y) (all_sdefs (p_after c))) (p_outs c)) 32 ++
+  tag (2 <=? length (filter (fun ab => both_defined (fst ab) (snd ab)) cmp)) 1031 ++
+  (* how many of the dependent variable's sample points were comparable (tags 2000 + n) *)
+  [2000 + length (filter (fun m => existsb (fun y => both_defined (run7 (env_of m) (p_before c) y)
+                                                        (run7 (ren_env d m) (p_after c) (ren d y)))
+                                           (p_outs c)) (p_envs c))].
+
+(* ---- oracle-only stream (validation): gradient extractors against exact central differences ------
+   The generated programs are polynomials of degree <= 2 in every eta and affine in every epsilon, so
+   (f(x+1) - f(x-1)) / 2 IS the derivative.  sympy's diff is an engine: this validates it together
+   with the wiring of calculate_eta_gradient_expression / calculate_epsilon_gradient_expression. *)
+Record gcase := mkG {
+  g_prog : list stm;
+  g_dv : id;
+  g_epss : list id;
+  g_eta_grad : list (id * expr);     (* eta, d ipred / d eta *)
+  g_eps_grad : list (id * expr);     (* eps, d y / d eps *)
+  g_envs : list (list (id * Q))
+}.
+
+Definition central (r : env) (x : id) (f : env -> option Q) : option Q :=
+  match r x with
+  | Some v =>
+      match f (upd r x (Some (Qred (v + 1)))), f (upd r x (Some (Qred (v - 1)))) with
+      | Some a, Some b => Some (Qred ((a - b) / 2))
+      | _, _ => None
+      end
+  | None => None
+  end.
+
+Definition grad_ok (c : gcase) (at_ : env -> env) (xs : list (id * expr)) : bool :=
+  forallb (fun m =>
+    let r := at_ (env_of m) in
+    forallb (fun xg => negb (changed (eval r std_fi (snd xg))
+                                     (central r (fst xg) (fun r' => run7 r' (g_prog c) (g_dv c))))) xs)
+    (g_envs c).
+
+Definition verdict_grad (c : gcase) : list nat :=
+  tag (grad_ok c (fun r => upd_map r std_fi (zeros (g_epss c))) (g_eta_grad c)) 41 ++
+  tag (grad_ok c (fun r => r) (g_eps_grad c)) 42 ++
+  [2000 + length (filter (fun m => match run7 (env_of m) (g_prog c) (g_dv c) with Some _ => true | None => false end)
+                         (g_envs c))].
